@@ -12,7 +12,7 @@ from common import Check, REPO  # noqa: E402
 U = {"float32": 2.0**-24, "float16": 2.0**-11, "bfloat16": 2.0**-8}
 ETA = {"float32": 2.0**-150, "float16": 2.0**-25, "bfloat16": 2.0**-134}
 
-UNARY = ["view_flat", "reshape", "transpose01", "t", "permute_rev", "select0", "index0", "slice", "slice_last", "expand", "unsqueeze", "clone", "detach", "contiguous", "to_cpu",
+UNARY = ["mul_1elem", "div_1elem", "cat_neg", "cat_relu", "view_flat", "reshape", "transpose01", "t", "permute_rev", "select0", "index0", "slice", "slice_last", "expand", "unsqueeze", "clone", "detach", "contiguous", "to_cpu",
          "cat_self", "stack_self", "stack3", "split", "chunk", "mul_scalar", "rmul_scalar", "div_scalar", "neg", "relu", "softmax", "copy_into_plain", "sum", "mean", "abs", "gelu",
          "layer_norm", "topk", "log_softmax", "to_dtype"]
 
@@ -30,6 +30,14 @@ def step_for(rng, name, shape, reg):
     n = len(shape)
     if name == "view_flat":
         return [r], [prod(shape)]
+    if name in ("mul_1elem", "div_1elem"):
+        k = rng.randint(1, 3)
+        return [r, {"lit": k}], ([1] * (k - n) + shape if k > n else shape)
+    if name in ("cat_neg", "cat_relu"):
+        if n < 1:
+            return None
+        d = rng.randrange(n)
+        return [r, {"lit": d}], shape[:d] + [2 * shape[d]] + shape[d + 1 :]
     if name == "reshape":
         tot = prod(shape)
         divs = [d for d in range(1, tot + 1) if tot % d == 0]
@@ -176,6 +184,9 @@ def audit_meta(ck, m, ctx):
     if m.get("cls") not in ("QBytesTensor", "QBitsTensor", "AWQBitsTensor"):
         return
     rep = dict(ctx, meta=m)
+    if "deq_error" in m:
+        ck.violation(f"a returned {m['cls']} cannot be dequantized ({m['deq_error'][:60]}): scale shape {m['scale_shape']} vs shape {m['shape']}, axis {m['axis']} (after {ctx.get('op')})", rep)
+        return
     if m["shape"] != m["deq_shape"]:
         ck.violation(f"{m['cls']} reports shape {m['shape']} but its dequantized value has shape {m['deq_shape']} (after {ctx.get('op')})", rep)
     if m["dtype"] != m["deq_dtype"] or m["dtype"] != m["scale_dtype"]:
@@ -213,6 +224,19 @@ def run(pid, tier):
     act = lambda qt="qint8", **k: dict({"kind": "qact", "qtype": qt, "shape": S, "dtype": "float32"}, **k)  # noqa: E731
     directed = [
         {"operands": [act()], "steps": [{"op": "stack3", "args": [{"reg": 0}]}]},
+        {"operands": [{"kind": "qweight", "qtype": "qint8", "shape": [4, 6], "dtype": "float32", "axis": 0}], "steps": [{"op": "cat_neg", "args": [{"reg": 0}, {"lit": 0}]}]},
+        {"operands": [{"kind": "qweight", "qtype": "qint8", "shape": [4, 6], "dtype": "float32", "axis": -1}], "steps": [{"op": "cat_relu", "args": [{"reg": 0}, {"lit": 1}]}]},
+        {"operands": [{"kind": "qweight", "qtype": "qint8", "shape": [4, 6], "dtype": "float32", "axis": 0}], "steps": [{"op": "cat_neg", "args": [{"reg": 0}, {"lit": 1}]}]},
+        {"operands": [{"kind": "qact", "qtype": "qint8", "shape": [6], "dtype": "float32"}], "steps": [{"op": "mul_1elem", "args": [{"reg": 0}, {"lit": 2}]}]},
+        {"operands": [{"kind": "qact", "qtype": "qint8", "shape": [6], "dtype": "float32"}], "steps": [{"op": "div_1elem", "args": [{"reg": 0}, {"lit": 3}]}]},
+        {"operands": [act()], "steps": [{"op": "neg", "args": [{"reg": 0}]}, {"op": "relu", "args": [{"reg": 1}]}]},
+        {"operands": [act(scale=0.05), act(scale=0.05)], "steps": [{"op": "neg", "args": [{"reg": 0}]}, {"op": "neg", "args": [{"reg": 1}]}, {"op": "lt", "args": [{"reg": 2}, {"reg": 3}]}]},
+        {"operands": [act()], "steps": [{"op": "mul_scalar", "args": [{"reg": 0}, {"lit": -1.5}]}, {"op": "relu", "args": [{"reg": 1}]}]},
+        {"operands": [act(scale=0.05), act(scale=0.05)], "steps": [{"op": "mul_scalar", "args": [{"reg": 0}, {"lit": -1}]}, {"op": "mul_scalar", "args": [{"reg": 1}, {"lit": -1}]}, {"op": "lt", "args": [{"reg": 2}, {"reg": 3}]}]},
+        {"operands": [act(dtype="float16")], "steps": [{"op": "softmax", "args": [{"reg": 0}]}]},
+        {"operands": [act(dtype="float32")], "steps": [{"op": "softmax", "args": [{"reg": 0}]}]},
+        {"operands": [act(dtype="bfloat16")], "steps": [{"op": "softmax", "args": [{"reg": 0}]}]},
+        {"operands": [act("qfloat8_e4m3fn", dtype="float32")], "steps": [{"op": "softmax", "args": [{"reg": 0}]}]},
         {"operands": [act("qfloat8_e4m3fn", scale=0.05), act("qfloat8_e4m3fn", scale=0.05)], "steps": [{"op": "lt", "args": [{"reg": 0}, {"reg": 1}]}]},
         {"operands": [act(scale=0.05), act(scale=0.05)], "steps": [{"op": "lt", "args": [{"reg": 0}, {"reg": 1}]}]},
         {"operands": [act()], "steps": [{"op": "copy_into_plain", "args": [{"reg": 0}]}]},
@@ -247,8 +271,12 @@ def run(pid, tier):
         for m in r["operands"]:
             if pid == "C06":
                 audit_meta(ck, m, {"op": "quantization", "program": p})
+        neg_literal_seen = False
         for si, st in enumerate(r["steps"]):
             ctx = {"program": p, "step": si, "op": st["op"]}
+            if st["op"] in ("mul_scalar", "rmul_scalar", "div_scalar") and any(isinstance(a, dict) and isinstance(a.get("lit"), (int, float)) and a["lit"] < 0 for a in p["steps"][si]["args"]):
+                neg_literal_seen = True
+            negscale = neg_literal_seen and any((m or {}).get("scale_min", 0) < 0 for m in (st.get("in_meta") or []))
             ck.count("op", st["op"])
             if not st["float_ok"]:
                 ck.count("invalid float step")
@@ -297,17 +325,30 @@ def run(pid, tier):
                     return
                 dt = c.get("dtype") if c.get("dtype") in U else dtype
                 u, eta = U[dt], ETA[dt]
+                if c.get("dtype_same") is False:
+                    ck.violation(f"{st['op']}: result dtype {c.get('dtype')} differs from the dtype of the float program's result", dict(ctx, cmp=c))
+                    return
                 if not c.get("nan_same", True) or (c.get("ref_finite") and not c.get("finite")):
                     ck.violation(f"{st['op']}: non-finite / NaN pattern differs from the float program", dict(ctx, cmp=c))
                     return
-                if cls in ("move", "move_list", "passthrough", "copy"):
+                if cls == "passthrough_or_rescale":
+                    if not c["exact"] and c["maxdiff"] > 4 * u * c["refmax"] + 4 * eta:
+                        ck.violation(f"{st['op']}: differs from the float result by {c['maxdiff']:.3g} > rounding", dict(ctx, cmp=c))
+                elif cls in ("move", "move_list", "passthrough", "copy"):
                     if not c["exact"]:
-                        ck.violation(f"{st['op']} only moves data (or is passed through) but its result differs from the op on the dequantized values by {c['maxdiff']:.3g}", dict(ctx, cmp=c))
+                        what = f"{st['op']} only moves data (or is passed through) but its result differs from the op on the dequantized values by {c['maxdiff']:.3g}"
+                        if negscale and st["op"] in ("lt", "cat_relu"):
+                            what += " (an operand carries a negative scale after multiplication/division by a negative scalar)"
+                        if st["op"] == "cat_neg" and st.get("min_code") == -128:
+                            what += " (a code equals -128: int8 negation wraps)"
+                        ck.violation(what, dict(ctx, cmp=c))
                 elif cls == "sign":
                     if not c["exact"]:
                         what = f"{st['op']} on int8 codes differs from the op on the dequantized values by {c['maxdiff']:.3g}"
                         if st["op"] == "neg" and st.get("min_code") == -128:
                             what += " (a code equals -128: int8 negation wraps)"
+                        if negscale:
+                            what += " (an operand carries a negative scale after multiplication/division by a negative scalar)"
                         ck.violation(what, dict(ctx, cmp=c, min_code=st.get("min_code")))
                 elif cls in ("rescale", "dtype"):
                     uu = max(u, max(U.values()) if cls == "dtype" else u)
